@@ -48,7 +48,7 @@ func (d *svcapiDom) Gen(r *gen.R, tier string, emit func(string)) {
 		switch r.Intn(10) {
 		case 0, 1, 2, 3, 4:
 			rid := r.Pick(svcapiNames) + r.Pick(svcapiQueries)
-			act := r.Pick([]string{"custom:foo", "custom:foo", "custom:a.b", "custom:change", "custom:x y", "custom:", "change", "reset", "reaccess", "create", "delete", "query", "resource"})
+			act := r.Pick([]string{"custom:foo", "custom:foo", "custom:a.b", "custom:change", "custom:x y", "custom:", "custom:query", "custom:add", "custom:remove", "custom:delete", "custom:patch", "custom:reaccess", "custom:unsubscribe", "custom:queryx", "change", "reset", "reaccess", "create", "delete", "query", "resource"})
 			emit(wire.Line("with", rid, act))
 			emit(wire.Line("withls", rid, act))
 		case 5, 6:
